@@ -177,6 +177,44 @@ def run_driver(script_lines):
     return p.returncode, p.stdout.split('\n')
 
 
+def run_robust(hexe, lines, meta, wd, tag, nranks=1, safe='0'):
+    """Run a script on the real library.  If the process dies (assert, segfault, deadlock alarm, or a kill from
+    outside), the case that was running is re-run alone in a fresh process: if it dies again it is returned as
+    `crashed` (a failing input); if not, the run is resumed from the beginning of that case (at most 3 times, and
+    never twice for the same case).  -> (result lines for lines[:n], n, crashed or None, restarts)"""
+    results, pos, restarts, last_cid, crashed = [], 0, 0, None, None
+    while pos < len(lines):
+        rc, res, err = run_harness(hexe, lines[pos:], wd, '%s_%d' % (tag, restarts), nranks=nranks, safe=safe)
+        done = [x for x in res if x and x != 'TIMEOUT']
+        if rc == 0 and len(done) >= len(lines) - pos:
+            results += done[:len(lines) - pos]
+            pos = len(lines)
+            break
+        k = min(pos + len(done), len(lines) - 1)
+        results += done[:k - pos]
+        cid = meta[k][0]
+        cstart = k
+        while cstart > 0 and meta[cstart - 1][0] == cid:
+            cstart -= 1
+        # the whole case up to the dying line, probes included: the death may come from restoring the state after the
+        # probe before it (e.g. closing a file that a wrongly accepted call left inconsistent)
+        case = lines[cstart:k + 1]
+        rci, resi, erri = run_harness(hexe, case + ['E'], wd, tag + '_isolate', nranks=nranks, safe=safe, timeout=120)
+        died = rci != 0 or len([x for x in resi if x]) < len(case) + 1
+        info = dict(script=case, died_again=died, rc=rc, isolated_rc=rci, ranks=nranks, stderr=(erri if died else err)[-600:])
+        log('[S4] %s: the harness process died at script line %d (rc=%s); the case alone %s' %
+            (tag, k, rc, 'dies again' if died else 'survives -> resuming'))
+        if died or cid == last_cid or restarts >= 3:
+            crashed = info
+            results = results[:k]
+            pos = k
+            break
+        last_cid, restarts = cid, restarts + 1
+        results = results[:cstart]
+        pos = cstart
+    return results, pos, crashed, restarts
+
+
 def compare(lines, meta, cres, lres, V, stats, tag):
     """tie differences and property failures over one run"""
     tie, prop = [], []
@@ -335,12 +373,16 @@ def run_check(tier, seed):
            extra=['-I' + tree + '/src/drivers/ncmpio', '-I' + tree + '/src/drivers/include', '-I' + tree + '/src/include',
                   '-DHAVE_CONFIG_H'])
         # calibration of Cfg.fillChecksErr: one call on the real library
-        rc, res, err = run_harness(hexe, ['S created 1 0', 'P fillvarrec r', 'E'], wd, 'calib', timeout=120)
-        cfg = 0
-        try:
-            cfg = 1 if parse_fields(res[1].split())['e'] == '-39' else 0
-        except Exception:
-            V.broken_tie('harness calibration run failed', dict(rc=rc, result=res[:5], stderr=err[-500:]))
+        cfg = None
+        for attempt in range(3):      # (a kill from outside must not look like a broken tie)
+            rc, res, err = run_harness(hexe, ['S created 1 0', 'P fillvarrec r', 'E'], wd, 'calib', timeout=120)
+            try:
+                cfg = 1 if parse_fields(res[1].split())['e'] == '-39' else 0
+                break
+            except Exception:
+                cfg = None
+        if cfg is None:
+            V.broken_tie('harness calibration run failed three times', dict(rc=rc, result=res[:5], stderr=err[-500:]))
             return V.finish()
         V.cov['cfg_fillChecksErr'] = bool(cfg)
         log('[S4] calibration: ncmpi_fill_var_rec %s the error of its own tests' % ('returns' if cfg else 'DROPS'))
@@ -357,33 +399,18 @@ def run_check(tier, seed):
                     cid += 1
                 cm.append((cid, l[0], True))
             lines, meta = cl + lines, cm + meta
-        rc, cres, err = run_harness(hexe, lines, wd, 'main')
+        crashes = []
+        cres, ndone, crashed, restarts = run_robust(hexe, lines, meta, wd, 'main')
         drc, lres = run_driver(lines)
         log('[S4] %d cases, %d script lines on the real library and on model+spec in %.1fs' % (ncase, len(lines), t1.s()))
-        crashed = None
         if drc != 0 or len([x for x in lres if x]) < len(lines):
             V.broken_tie('Lean driver crashed', dict(lean_rc=drc, lean_lines=len(lres), script_lines=len(lines)))
             return V.finish()
-        if rc != 0 or len([x for x in cres if x]) < len(lines) or 'TIMEOUT' in cres:
-            # the library died (assert, segfault, deadlock alarm) inside a call: everything before it is still
-            # compared; the dying call is isolated in a fresh process and, if it dies again, is the failing input
-            done = [x for x in cres if x and x != 'TIMEOUT']
-            k = len(done)
-            if k < len(lines):
-                cid = meta[k][0]
-                # the whole case up to the dying line, probes included: the death may come from restoring the state
-                # after the probe before it (e.g. closing a file that a wrongly accepted call left inconsistent)
-                case = [l for l, m in zip(lines[:k + 1], meta[:k + 1]) if m[0] == cid]
-                rci, resi, erri = run_harness(hexe, case + ['E'], wd, 'isolate', timeout=120)
-                died = rci != 0 or len([x for x in resi if x]) < len(case) + 1
-                drci, lresi = run_driver(case)
-                doc = lresi[len(case) - 1].split(' | ')[-1] if len(lresi) >= len(case) else ''
-                crashed = dict(script=case, died_again=died, rc=rc, isolated_rc=rci, documented=doc,
-                               stderr=(erri if died else err)[-600:])
-            cres = done + ['e=0 closed chg=0 ex=1 val=0'] * 0
-            lines, meta, lres = lines[:k], meta[:k], lres[:k]
-            log('[S4] the harness process died at script line %d (rc=%s); isolated rerun %s' %
-                (k, rc, 'dies again' if crashed and crashed['died_again'] else 'survives'))
+        V.cov['harness_restarts'] = restarts
+        if crashed is not None:
+            crashed['documented'] = lres[ndone].split(' | ')[-1] if ndone < len(lres) else ''
+            crashes.append(crashed)
+            lines, meta, lres = lines[:ndone], meta[:ndone], lres[:ndone]
         tie, prop = compare(lines, meta, cres, lres, V, stats, 'np1')
         # ---- 2-rank sample (every k-th case), same comparison
         t2 = Timer()
@@ -404,13 +431,14 @@ def run_check(tier, seed):
         sl = wit + sl
         sm = [(-1, l[0], True) for l in wit] + sm
         if sl:
-            rc2, cres2, err2 = run_harness(hexe, sl, wd, 'np2', nranks=2)
+            cres2, n2, crashed2, r2 = run_robust(hexe, sl, sm, wd, 'np2', nranks=2)
             drc2, lres2 = run_driver(sl)
-            if rc2 != 0 or len([x for x in cres2 if x]) < len(sl) or 'TIMEOUT' in cres2:
-                V.broken_tie('2-rank harness run crashed / timed out (deadlock = alarm)',
-                             dict(c_rc=rc2, c_lines=len(cres2), script_lines=len(sl), last=cres2[-3:], stderr=err2[-800:]))
-                return V.finish()
-            V.cov['witness_pending_iput_then_put_varn_all_NC_GLOBAL_on_2_ranks'] = cres2[2]
+            V.cov['harness_restarts'] += r2
+            if crashed2 is not None:
+                crashed2['documented'] = lres2[n2].split(' | ')[-1] if n2 < len(lres2) else ''
+                crashes.append(crashed2)
+                sl, sm, lres2 = sl[:n2], sm[:n2], lres2[:n2]
+            V.cov['witness_pending_iput_then_put_varn_all_NC_GLOBAL_on_2_ranks'] = cres2[2] if len(cres2) > 2 else 'not reached'
             t_, p_ = compare(sl, sm, cres2, lres2, V, stats, 'np2')
             tie += t_; prop += p_
             log('[S4] 2-rank sample: %d lines in %.1fs' % (len(sl), t2.s()))
@@ -434,12 +462,14 @@ def run_check(tier, seed):
             if m[0] % step_k == off2:
                 sl3.append(('S %s %s 1' % tuple(ln.split()[1:3])) if ln.startswith('S ') else ln); sm3.append(m)
         if sl3:
-            rc3, cres3, err3 = run_harness(hexe, sl3, wd, 'safe', safe='1')
+            cres3, n3, crashed3, r3 = run_robust(hexe, sl3, sm3, wd, 'safe', safe='1')
             drc3, lres3 = run_driver(sl3)
-            if rc3 != 0 or len([x for x in cres3 if x]) < len(sl3) or 'TIMEOUT' in cres3:
-                V.broken_tie('safe-mode harness run crashed / timed out',
-                             dict(c_rc=rc3, c_lines=len(cres3), script_lines=len(sl3), last=cres3[-3:], stderr=err3[-800:]))
-                return V.finish()
+            V.cov['harness_restarts'] += r3
+            if crashed3 is not None:
+                crashed3['documented'] = lres3[n3].split(' | ')[-1] if n3 < len(lres3) else ''
+                crashed3['safe_mode'] = True
+                crashes.append(crashed3)
+                sl3, sm3, lres3 = sl3[:n3], sm3[:n3], lres3[:n3]
             t_, p_ = compare(sl3, sm3, cres3, lres3, V, stats, 'safe')
             tie += t_; prop += p_
             log('[S4] safe-mode sample (model configuration `repaired`): %d lines in %.1fs' % (len(sl3), t3.s()))
@@ -447,12 +477,14 @@ def run_check(tier, seed):
         # ---- isolated replay of the witness with an unchecked varid (may crash: separate processes)
         crash_results = {}
         for v, doc in (('b', -49), ('g', -50)):
-            rc3, res3, err3 = run_harness(hexe, ['S openrw 1 %d' % cfg, 'C fillvarrec %s' % v, 'E'], wd, 'ub_' + v, timeout=60)
             got = None
-            try:
-                got = int(parse_fields(res3[1].split())['e'])
-            except Exception:
-                got = None
+            for attempt in range(2):  # a death counts only if it reproduces
+                rc3, res3, err3 = run_harness(hexe, ['S openrw 1 %d' % cfg, 'C fillvarrec %s' % v, 'E'], wd, 'ub_' + v, timeout=60)
+                try:
+                    got = int(parse_fields(res3[1].split())['e'])
+                    break
+                except Exception:
+                    got = None
             crash_results[v] = 'crash(rc=%s)' % rc3 if got is None else got
             stats['evaluations'] += 1
             if got != doc:
@@ -485,15 +517,15 @@ def run_check(tier, seed):
         # ---- S5 decide
         new_fail = 0
         seen_sig = set()
-        if crashed is not None:
+        for crashed in crashes:
             call = crashed['script'][-1][2:]
             if crashed['died_again']:
                 if V.failing_input('C14:%s:process-died' % call.split()[0],
                                    'history %s: the library aborts / crashes / hangs instead of returning the documented result (%s)'
-                                   % (' ; '.join(crashed['script']), crashed['documented']), crashed, tag='crash'):
+                                   % (' ; '.join(crashed['script']), crashed.get('documented', '')), crashed, tag='crash%d' % new_fail):
                     new_fail += 1
             else:
-                V.broken_tie('harness process died in the long run but not on the isolated history', crashed)
+                V.broken_tie('the harness process died repeatedly in a long run but not on the isolated history', crashed)
         for tag, i, history, c, ls, why in prop:
             call = history[-1][2:]
             sig = signature(call, why)
